@@ -31,9 +31,14 @@ def run_case(case):
                 {"all": lambda: sc.commit_all("c"), "files": sc.op_partial_commit, "hunks": sc.op_hunk_commit, "paths": sc.op_commit_paths}[k]()
                 sc.check_blame_tip(where, complete=False, rule="C03")
             elif r < 0.8:
-                # AI work first, so that there is something to discard
+                # AI work first, so that there is something to discard; sometimes turned into INITIAL-only pending state by a
+                # commit of other files (line-number claims with no content snapshot left)
                 if rng.random() < 0.7:
                     sc.do_edit(author=rng.choice(sc.sessions))
+                    if rng.random() < 0.4 and len(sc.files) > 1:
+                        others = [x for x in sc.files if x != sc.log[-1][1]]
+                        sc.do_edit(author="human", f=rng.choice(others), kinds=["ins"])
+                        sc.g("add", "--", sc.log[-1][1]); sc.g("commit", "-q", "-m", "only another file")
                 ch = sc.op_destructive()
                 destr += 1
                 sc.human_overwrite_same_lines()
